@@ -389,7 +389,7 @@ func Run(r *vk.Run) {
 	r.Assume("mempool double per contract: GetTxs does not remove, executed transactions leave the mempool; identity of a transaction is its bytes (as in the reaper)")
 	r.Assume("MemDS double: one durable write = one Put/Delete/Batch.Commit; reaper seen-set, sequencer queue and block store share the datastore as in the node")
 	rng := r.Rand("cases")
-	nBase := r.N(60, 1200)
+	nBase := r.N(150, 4000)
 	var bases []Case
 	for i := 0; i < nBase; i++ {
 		bases = append(bases, genBase(rng, i))
